@@ -54,6 +54,9 @@ func valStr(kind string, v int) string {
 	case "cpu.cpus", "cpu.mems":
 		return fmt.Sprintf("0-%d", v)
 	case "blockio", "rdt":
+		if v%6 == 0 {
+			return "" // an empty class name means "clear the class"
+		}
 		return fmt.Sprintf("cls%d", v)
 	case "ann", "env", "unified":
 		return fmt.Sprintf("v%d", v)
